@@ -29,18 +29,21 @@ pub struct AuthCfg {
     pub id_len: Option<u8>,
     pub hmac: HmacCfg,
     pub hmac_mc: bool,
+    /// the transports the authenticator is built to report: 0 = the library's default, 1 = an empty
+    /// list, 2 = [usb], 3 = [internal, hybrid, ble, nfc]
+    pub transports: u8,
 }
 
 impl Default for AuthCfg {
     fn default() -> Self {
-        AuthCfg { counters: false, id_len: None, hmac: HmacCfg::None, hmac_mc: false }
+        AuthCfg { counters: false, id_len: None, hmac: HmacCfg::None, hmac_mc: false, transports: 0 }
     }
 }
 
 impl AuthCfg {
     pub fn json(&self) -> serde_json::Value {
         serde_json::json!({"counters": self.counters, "id_len": self.id_len,
-            "hmac": format!("{:?}", self.hmac), "hmac_mc": self.hmac_mc})
+            "hmac": format!("{:?}", self.hmac), "hmac_mc": self.hmac_mc, "transports_config": self.transports})
     }
     pub fn expected_id_len(&self) -> usize {
         match self.id_len {
@@ -54,6 +57,15 @@ pub const AAGUID: [u8; 16] = [0xa1, 0xb2, 0xc3, 0xd4, 1, 2, 3, 4, 5, 6, 7, 8, 9,
 
 pub fn mk_auth<S: CredentialStore>(store: S, uv: RecUv, cfg: AuthCfg) -> Authenticator<S, RecUv> {
     let mut a = Authenticator::new(Aaguid::from(AAGUID), store, uv);
+    {
+        use passkey_types::webauthn::AuthenticatorTransport as T;
+        a = match cfg.transports {
+            1 => a.transports(vec![]),
+            2 => a.transports(vec![T::Usb]),
+            3 => a.transports(vec![T::Internal, T::Hybrid, T::Ble, T::Nfc]),
+            _ => a,
+        };
+    }
     a.set_make_credentials_with_signature_counter(cfg.counters);
     if let Some(l) = cfg.id_len {
         a.set_make_credential_id_length(CredentialIdLength::from(l));
